@@ -91,9 +91,19 @@ impl ParserOfModuleLocals {
     }
     fn handle_interface_decl(&mut self, n: &TsInterfaceDecl) {
         let TsInterfaceDecl { id, .. } = n;
+        // several declarations of one interface in a module merge (TypeScript declaration merging)
+        let merged = match self.content.interfaces.get(&id.sym.to_string()) {
+            Some(earlier) if earlier.span != n.span => {
+                let mut merged = (**earlier).clone();
+                merged.body.body.extend(n.body.body.iter().cloned());
+                merged.extends.extend(n.extends.iter().cloned());
+                merged
+            }
+            _ => n.clone(),
+        };
         self.content
             .interfaces
-            .insert(id.sym.to_string(), Rc::new(n.clone()));
+            .insert(id.sym.to_string(), Rc::new(merged));
     }
 }
 
